@@ -205,6 +205,35 @@ func curvesOf(l []uint16) []uint16 {
 	return l
 }
 
+// hybridFallback: the classical component a zcrypto client also offers as a key share when a post-quantum hybrid
+// group is the top entry of its CurvePreferences (handshake_client.go: "If one of the hybrid PQ algorithms is
+// explicitly enabled as the top preference, also send a fallback").
+var hybridFallback = map[uint16]uint16{4588: 29, 4587: 23, 4589: 24}
+
+func isHybrid(g uint16) bool { _, ok := hybridFallback[g]; return ok }
+
+func anyHybrid(ls ...[]uint16) bool {
+	for _, l := range ls {
+		for _, g := range l {
+			if isHybrid(g) {
+				return true
+			}
+		}
+	}
+	return false
+}
+
+// clientGroups: the groups a client with this CurvePreferences list can end up using: the list, plus the classical
+// fallback of a hybrid top preference (offered as a key share even when it is not in the list; the statement does
+// not speak about groups, so the handshake completing on that fallback is an outcome, not a violation).
+func clientGroups(l []uint16) []uint16 {
+	cc := curvesOf(l)
+	if fb, ok := hybridFallback[cc[0]]; ok && !has16(cc, fb) {
+		return append(append([]uint16{}, cc...), fb)
+	}
+	return cc
+}
+
 func has16(l []uint16, x uint16) bool {
 	for _, y := range l {
 		if x == y {
@@ -341,7 +370,7 @@ func (m *model) predict(c Cfg) Pred {
 	}
 	p.COffer12, p.COffer13, p.CDefault = m.clientOffer(c)
 	p.SEnable12, p.SEnable13, p.SDefault = m.serverEnable(c)
-	cc, sc := curvesOf(c.CCurves), curvesOf(c.SCurves)
+	cc, sc := clientGroups(c.CCurves), curvesOf(c.SCurves)
 	for _, x := range cc {
 		if has16(sc, x) {
 			p.Overlap = true
@@ -429,7 +458,7 @@ func (m *model) cands12(c Cfg, p *Pred, certs []certInfo, multi bool) (cands []u
 	if c.Prefer {
 		order, other = p.SEnable12, p.COffer12
 	}
-	cc, sc := curvesOf(c.CCurves), curvesOf(c.SCurves)
+	cc, sc := clientGroups(c.CCurves), curvesOf(c.SCurves)
 	for _, id := range order {
 		if !has16(other, id) || has16(cands, id) {
 			continue
